@@ -8,5 +8,4 @@ sys.path.insert(0, os.getcwd())
 from vlib import core
 core.build_repo()
 PY
-(cd lean && lake build)
 python3 tools/build_all.py
